@@ -215,6 +215,13 @@ theorem select_counts_selected_bands (w : Nat → Rat) (l : List Nat) (ab : Nat 
       groupWeight w ab * ((l.filter (fun i => decide (ab.1 ≤ i) && decide (i < ab.2))).length : Rat) :=
   select_weight_counts w (some l) ab h1
 
+/-- T8 (order of the selection).  `weight_select_bands`, the group filter and hence the whole group dictionary with
+    values depend on `select_bands` only as a multiset: permuting the selection changes nothing (repeated entries are
+    counted with their multiplicity, as `np.sum` of the masks does). -/
+theorem weight_select_perm_invariant {l l' : List Nat} (h : l.Perm l') (ab : Nat × Nat) :
+    wsel (some l) ab = wsel (some l') ab ∧ selHits (some l) ab = selHits (some l') ab :=
+  wsel_perm h ab
+
 /-- T9 (cache transparency).  `TetraWeights` evaluates a weight once per (Fermi array BY IDENTITY, der, ik, ib).  For
     every history of queries — any arrays, orders and repetitions — interleaved with in-place modifications only of
     arrays that this object has never seen (or that leave the contents unchanged), every answer equals the cache-free
